@@ -408,7 +408,8 @@ func c28KeystoreGen(t *rapid.T) c28KeystoreCase {
 	c.ID = c28GenBytes(t, "id", 16, 16)
 	c.Msg = c28GenMsg(t, "msg")
 	if pbt.Thorough() {
-		c.Light = rapid.IntRange(0, 199).Draw(t, "light") == 0
+		v := rapid.IntRange(0, 999).Draw(t, "light")
+		c.Light = v >= 500 && v < 505 // (not "== 0": rapid favours the ends of a range)
 	}
 	return c
 }
